@@ -1589,9 +1589,17 @@ func (fc *fnCtx) execInstr(st *State, instr ssa.Instruction) {
 		if a, ok := x.Addr.(*ssa.Alloc); ok {
 			prevVal = st.cells[a]
 		}
+		fkey, ford := "", 0
+		if !fc.inline && !fc.specMode && fc.contract != nil && len(fc.contract.Afters) > 0 {
+			if fkey, ford = fieldStoreKey(x); fkey != "" {
+				prevVal = fc.readLVal(st, l)
+			}
+		}
 		fc.writeLVal(st, l, fc.materialize(st, v))
 		if a, ok := x.Addr.(*ssa.Alloc); ok {
 			fc.afterStore(st, a, x, prevVal)
+		} else if fkey != "" {
+			fc.afterFieldStore(st, fkey, ford, x, prevVal, x.Val.Type())
 		}
 	case *ssa.UnOp:
 		fc.execUnOp(st, x)
@@ -2458,6 +2466,82 @@ func onlyCopyDst(x *ssa.Slice) bool {
 		}
 	}
 	return true
+}
+
+// fieldStoreKey recognises `p.F = v` for a local pointer variable p: it returns "p.F" and the rank of this
+// store among the stores to that field through that variable, in source order.
+func fieldStoreKey(x *ssa.Store) (string, int) {
+	key := func(s *ssa.Store) string {
+		fa, ok := s.Addr.(*ssa.FieldAddr)
+		if !ok {
+			return ""
+		}
+		ld, ok := fa.X.(*ssa.UnOp)
+		if !ok || ld.Op != token.MUL {
+			return ""
+		}
+		a, ok := ld.X.(*ssa.Alloc)
+		if !ok || a.Comment == "" {
+			return ""
+		}
+		pt, ok := fa.X.Type().Underlying().(*types.Pointer)
+		if !ok {
+			return ""
+		}
+		stt, ok := pt.Elem().Underlying().(*types.Struct)
+		if !ok || fa.Field >= stt.NumFields() {
+			return ""
+		}
+		return a.Comment + "." + stt.Field(fa.Field).Name()
+	}
+	k := key(x)
+	if k == "" {
+		return "", 0
+	}
+	var stores []*ssa.Store
+	for _, b := range x.Parent().Blocks {
+		for _, ins := range b.Instrs {
+			if s, ok := ins.(*ssa.Store); ok && key(s) == k {
+				stores = append(stores, s)
+			}
+		}
+	}
+	sort.SliceStable(stores, func(i, j int) bool { return stores[i].Pos() < stores[j].Pos() })
+	for i, s := range stores {
+		if s == x {
+			return k, i + 1
+		}
+	}
+	return k, 0
+}
+
+// afterFieldStore handles `assert after p.F#k: E` (k-th assignment, in source order, to field F through
+// the local pointer p); `prev` is the value of the field just before the assignment.
+func (fc *fnCtx) afterFieldStore(st *State, key string, ord int, store *ssa.Store, prevVal string, ty types.Type) {
+	t := fc.top
+	for i, as := range fc.contract.Afters {
+		if as.Var != key || as.K != ord {
+			continue
+		}
+		t.boundAfters[i] = true
+		own := map[string]Val{}
+		if prevVal != "" {
+			own["prev"] = Val{T: prevVal, Ty: ty}
+		}
+		savePos := t.curPos
+		if store.Pos().IsValid() {
+			t.curPos = store.Pos()
+		}
+		env := fc.specEnv(st, own)
+		t.curPos = savePos
+		g, err := env.goal(as.Assert.Expr)
+		if err != nil {
+			fc.specError(as.Assert, err)
+			continue
+		}
+		fc.oblige(st, "assert", fmt.Sprintf("assert-after-%s%d", as.Var, as.K), g, "ghost assertion: "+as.Assert.Text, token.NoPos, true)
+		fc.assume(st, g)
+	}
 }
 
 // afterStore handles `assert after var#k` ghost assertions.
